@@ -230,8 +230,16 @@ func Delete() {
 	p := setup()
 	p.opts.Version.NewSegmentsVersion = verOpt("newver")
 	p.opts.Version.KeepRewriteVersion = vrt.Choose("keepver", 2) == 1
+	// session mode 1: AutoSync on and every segment read before the delete
+	mode := vrt.Choose("session", 2)
+	p.opts.AutoSync = mode == 1
 	lg := open(p)
 	live := p.l.Live()
+	if mode == 1 {
+		// every segment has been read (indexes and data files loaded) before the delete
+		kit.Observe(lg, live, p.l.Next, "before Delete")
+		vrt.Reach("read-before-delete")
+	}
 	set, offs := delSet()
 	deleted, size, err := lg.Delete(set)
 	if len(offs) == 0 {
@@ -441,6 +449,13 @@ func Reopen() {
 	p.opts.Version.EagerVersionMigrate = vrt.Choose("eager", 2) == 1
 	lg := open(p)
 	live := p.l.Live()
+	if vrt.Choose("statfirst", 2) == 1 {
+		// Stat is a query like any other: it must work before any other call has touched the segments
+		st, err := lg.Stat()
+		vrt.Assert(err == nil, "Stat right after reopen: no error")
+		vrt.Assert(st.Messages == len(live) && st.Segments == len(p.l.Segs), "Stat right after reopen: live messages and segments")
+		vrt.Reach("stat-first")
+	}
 	kit.Observe(lg, live, p.l.Next, "after reopen")
 	d := closeAndDecode(p, lg, live, p.l.Next, "after reopen+Close")
 	if p.opts.Version.EagerVersionMigrate && !p.opts.Readonly {
